@@ -189,6 +189,18 @@ def build_inputs(ctx, res):
                     both = list(rs) + second
                     inputs.append(("two-models-one-object:%s" % name, both, m))
                     inputs.append(("two-models-one-object:%s" % name, both, m + 1))
+                    # the same two conformers numbered 1 and 0 (model numbers are names; 0 is one of them), each requested
+                    renum = lambda res, k: Residue3D(res.label, res.auth, k, res.one_letter_name,  # noqa: E731
+                                                     tuple(dataclasses.replace(a, model=k) for a in res.atoms))
+                    zero = [renum(r, 1) for r in rs] + [renum(r, 0) for r in G.thinned(rng, second, 0.3, 0.0)]
+                    inputs.append(("two-models-one-object:numbered-1-and-0:%s" % name, zero, 0))
+                    inputs.append(("two-models-one-object:numbered-1-and-0:%s" % name, zero, 1))
+                    # nucleotides reduced to the base and a stub of the sugar (C1', C2', O4'): still nucleotides with every
+                    # atom the definition uses
+                    from rnapolis.tertiary import BASE_ATOMS
+                    keep = lambda r: set(BASE_ATOMS.get(r.one_letter_name, [])) | {"C1'", "C2'", "O4'"}  # noqa: E731
+                    stubs = [G.rebuild(r, keep=(lambda a, names=keep(r): a.name in names)) if rng.random() < 0.5 else r for r in nts]
+                    inputs.append(("base-and-sugar-stub:%s" % name, stubs, m))
                 if big:
                     inputs.append(("jitter0.05:%s" % name, G.jittered(rng, nts, 0.05), m))
                 elif small or not ctx.quick:
